@@ -65,9 +65,19 @@ func expandFacts(g *cfgq.Graph, fs []cfgq.Fact) []cfgq.Fact {
 	for depth := 0; depth < 2; depth++ {
 		var more []cfgq.Fact
 		for _, f := range fs {
-			if id, ok := ast.Unparen(f.Expr).(*ast.Ident); ok {
-				if d := ValueOf(g.Info, g.Body, id); d != ast.Expr(id) {
+			switch x := ast.Unparen(f.Expr).(type) {
+			case *ast.Ident:
+				if d := ValueOf(g.Info, g.Body, x); d != ast.Expr(x) {
 					more = append(more, cfgq.Facts(d, f.Val)...)
+				}
+			case *ast.CallExpr:
+				// a parameterless predicate closure bound to a local: `bad := func() bool { return c }; if bad() {..}`
+				if id, ok := ast.Unparen(x.Fun).(*ast.Ident); ok && len(x.Args) == 0 {
+					if lit, ok := ast.Unparen(ValueOf(g.Info, g.Body, id)).(*ast.FuncLit); ok && len(lit.Body.List) == 1 {
+						if ret, ok := lit.Body.List[0].(*ast.ReturnStmt); ok && len(ret.Results) == 1 {
+							more = append(more, cfgq.Facts(ret.Results[0], f.Val)...)
+						}
+					}
 				}
 			}
 		}
